@@ -108,6 +108,11 @@ func (e *Executor) setupFuzzyModel() {
 		words = slices.Concat(words, task.Aliases)
 	}
 
+	// The model stores every word with up to two letters deleted: its size
+	// grows with the square of the word length, so very long names (which
+	// nobody mistypes by one letter anyway) are left out
+	words = slices.DeleteFunc(words, func(word string) bool { return len(word) > 64 })
+
 	model.Train(words)
 	e.fuzzyModel = model
 }
